@@ -55,4 +55,16 @@ theorem recover_calls_guarded :
 theorem sign_generator_twin_same :
     C13Sites.twinMethods.all (·.2) = true ∧ C13Sites.twinMethods.length = 4 := by decide
 
+/-- No function of packages `groupsig`, `groupsig/bn256`, `base` writes a package-level variable
+    (assignment, increment/decrement, a mutating method or `gfpXxx(dst, …)` helper applied to one): results cannot
+    depend on process-local history through package state. A scratch buffer or a constant mutated
+    through an alias (also a local bound directly to a package variable) makes this false. -/
+theorem path_writes_no_package_state :
+    C13Sites.packageStateWrites = [] ∧ 20 ≤ C13Sites.pathFilesScanned := by decide
+
+/-- No fork flag (`IsProposalNNN`, `LocalChainConfig`, `GetBlockHeight`) is read on the property's
+    path (groupsig, bn256, base, the generators, `groupNodeInfo`, `GetGroupK`): the behaviour proved
+    here is the same under every fork schedule and height. -/
+theorem path_reads_no_fork_flag : C13Sites.forkFlagReads = [] := by decide
+
 end Rangers.Props.C13Facts
